@@ -28,7 +28,11 @@ class SP(MultiQueueScheduler):
                     store = self.stores[flow_id]
                     if store.size() == 0:
                         continue
-                    packet: Packet = yield store.get()
+                    # take the head packet in the same step as the choice (the
+                    # store is not empty, so the request is granted at once):
+                    # a suspension here would let same-instant arrivals of a
+                    # higher priority slip in between choice and service
+                    packet: Packet = store.get().value
                     print(packet)
                     packet.priorities[self.flow2class(packet.flow_id)] = prio
                     yield env.process(self.send_packet(packet))
